@@ -310,7 +310,7 @@ static void build_operands(const Form* forms, uint32_t nforms, int evex_split, O
       }
       case K_MEM: {
         MemX& m = g.mem; g.mem_index = int(k);
-        uint32_t shape = pick(7); V_ASSUME(shape <= 5);
+        uint32_t shape = pick(7); V_ASSUME(shape <= 6);
         m.disp = int32_t(nondet_u32()); m.seg = pick(7); V_ASSUME(m.seg <= 6);
         m.addr32 = X64 ? nondet_bool() : false;
         uint32_t b = pick(X64 ? 15 : 7), x = pick(X64 ? 15 : 7), sh = pick(3);
@@ -335,6 +335,11 @@ static void build_operands(const Form* forms, uint32_t nforms, int evex_split, O
           V_ASSUME(X64 && m.disp < 0);
           m.abs_u32 = true; m.addr32 = true;
           mem = x86::ptr(uint64_t(uint32_t(m.disp))); mem.set_addr_type(x86::Mem::AddrType::kAbs);
+        }
+        else if (shape == 6) {   // index without base: [index*scale + disp32] (SIB with base=101b, mod=00); a 32-bit index in 64-bit mode needs 67h
+          V_ASSUME(x != 4);
+          m.has_index = true; m.index = x; m.shift = sh;
+          mem = x86::ptr(uint64_t(X64 ? uint64_t(int64_t(m.disp)) : uint64_t(uint32_t(m.disp))), (X64 && !m.addr32) ? x86::gpq(x) : x86::gpd(x), sh);
         }
         else if (shape == 2) { m.addr32 = false; mem = x86::ptr(X64 ? uint64_t(int64_t(m.disp)) : uint64_t(uint32_t(m.disp))); if (X64) mem.set_addr_type(x86::Mem::AddrType::kAbs); }
         else { V_ASSUME(X64); m.addr32 = false; m.rip = true; mem = x86::ptr(x86::rip, m.disp); }
